@@ -198,7 +198,10 @@ impl<VM: VMBinding> BumpAllocator<VM> {
             return Address::ZERO;
         }
 
-        let block_size = (size + BLOCK_MASK) & (!BLOCK_MASK);
+        // The block must hold the request wherever the alignment padding puts it: size the block
+        // for the worst-case aligned size (as the large object allocator does), not for `size`.
+        let aligned_size = crate::util::alloc::allocator::get_maximum_aligned_size::<VM>(size, align);
+        let block_size = (aligned_size + BLOCK_MASK) & (!BLOCK_MASK);
         let acquired_start = self.space.acquire(
             self.tls,
             bytes_to_pages_up(block_size),
